@@ -51,6 +51,40 @@ static void mutate_tables(const Schema& s, const Value& v, Tape& tp, Schema& os,
   }
 }
 
+// Gives one logical buffer in the value more elements than its capacity, WITH the elements present
+// in the input (so a decoder that gets the capacity check wrong really writes past the array).
+// Counts: capacity+1, capacity+2, 2*capacity+1, and 2^bits(size member)+j with j <= capacity (a
+// count whose low bits look legal after narrowing to the size member's type).
+static bool overfill_lbuf(const Schema& s, Value& v, Tape& tp, std::string& what) {
+  switch (s.k) {
+    case K::Bin: case K::Seq:
+      if (s.maxc >= 0 && !s.unbounded) {
+        std::vector<long> ns = {s.maxc + 1, s.maxc + 2, 2 * s.maxc + 1};
+        if (s.size_bits > 0 && s.size_bits <= 16) for (long j = 0; j <= s.maxc && j < 3; j++) ns.push_back((1l << s.size_bits) + j);
+        long n = ns[tp.below(ns.size())];
+        if (s.k == K::Bin) { size_t es = (size_t)s.bits / 8; std::string b; lcg_fill(b, (size_t)n * es, tp.next()); v.bytes = b; }
+        else { Value e = v.kids.empty() ? zero_value(*s.kids[0]) : v.kids[0]; v.kids.assign((size_t)n, e); }
+        what = fmt("logical buffer (capacity %ld, %d-bit size member) given %ld elements", s.maxc, s.size_bits, n);
+        return true;
+      }
+      if (s.k == K::Seq) for (auto& e : v.kids) if (overfill_lbuf(*s.kids[0], e, tp, what)) return true;
+      return false;
+    case K::Tup: case K::Stu: for (size_t i = 0; i < s.kids.size(); i++) if (overfill_lbuf(*s.kids[i], v.kids[i], tp, what)) return true; return false;
+    case K::Opt: return v.tag && overfill_lbuf(*s.kids[0], v.kids[0], tp, what);
+    case K::Res: return v.tag == 2 && overfill_lbuf(*s.kids[0], v.kids[0], tp, what);
+    case K::Var: return v.tag >= 0 && overfill_lbuf(*s.kids[v.tag], v.kids[0], tp, what);
+    case K::Map: for (size_t i = 1; i < v.kids.size(); i += 2) if (overfill_lbuf(*s.kids[1], v.kids[i], tp, what)) return true; return false;
+    case K::Tab: for (size_t i = 0; i < s.entries.size(); i++) if (s.entries[i].active && v.kids[i].tag && overfill_lbuf(*s.entries[i].type, v.kids[i].kids[0], tp, what)) return true; return false;
+    default: return false;
+  }
+}
+static bool has_lbuf(const Schema& s) {
+  if ((s.k == K::Bin || s.k == K::Seq) && s.maxc >= 0 && !s.unbounded) return true;
+  for (auto& k : s.kids) if (has_lbuf(*k)) return true;
+  for (auto& e : s.entries) if (has_lbuf(*e.type)) return true;
+  return false;
+}
+
 // Applies 1..nmut mutations to the valid encoding of (t.schema, v).
 Mutated mutate(const TypeOps& t, const Value& v, Tape& tp, int nmut, const Value* other) {
   Mutated m;
@@ -61,7 +95,12 @@ Mutated mutate(const TypeOps& t, const Value& v, Tape& tp, int nmut, const Value
   std::vector<std::pair<int, uint64_t>> later;
   Encoded probe = ref_encode(s, val);
   for (int i = 0; i < nmut; i++) {
-    uint64_t kind = tp.below(10);
+    uint64_t kind = tp.below(has_lbuf(s) ? 12 : 10);
+    if (kind >= 10) {
+      std::string w;
+      if (overfill_lbuf(s, val, tp, w)) { m.what.push_back(w); m.inflated_len = true; probe = ref_encode(s, val); eo.overrides.clear(); continue; }
+      kind = tp.below(9);
+    }
     if (kind == 9 && t.has_table) {
       Schema ns; Value nv; bool done = false;
       mutate_tables(s, val, tp, ns, nv, m.what, done);
